@@ -19,15 +19,15 @@ def gen_project(rng):
     """-> dict(files={rel: text}, source=rel, dests=[rel], clients={rel: style})"""
     files = {}
     pkgs = [("a",), ("c",)]
-    if rng.random() < 0.5:
+    if rng.random() < 0.8:
         pkgs.append(("a", "p"))
-    if rng.random() < 0.3:
+    if rng.random() < 0.5:
         pkgs.append(("c", "q"))
     for p in pkgs:
         files["/".join(p + ("__init__.py",))] = ""
     mods = []
     for p in pkgs:
-        for n in rng.sample(["b", "s", "t"], rng.choice([1, 2, 2, 3])):
+        for n in rng.sample(["b", "s", "t", "bb", "st"], rng.choice([1, 2, 3, 3])):
             rel = "/".join(p + (n + ".py",))
             mods.append(rel)
             files[rel] = "def g():\n    return %r\n" % (rel + ":g")
@@ -92,6 +92,29 @@ def gen_project(rng):
         rel = "/".join(tuple(folder) + ("k%d.py" % i,))
         files[rel] = text
         clients[rel] = style
+    # importers of the moved function that already have  from <top package> import <module>  for the top-level
+    # package of a nested destination (a.p.t): the new import's  from pkg import mod  candidate must split at the
+    # last dot
+    for j, dest in enumerate(others):
+        parts = L.modname_of_rel(dest).split(".")
+        if len(parts) >= 3:
+            tops = [m for m in mods if m.count("/") == 1 and m.split("/")[0] == parts[0] and m != source]
+            if tops:
+                tm = L.modname_of_rel(tops[0]).split(".")[1]
+                rel = "t%d.py" % j
+                files[rel] = "from %s import %s\nimport %s\nshow(%s.f)\nshow(%s.g)\n" % (parts[0], tm, sd, sd, tm)
+                clients[rel] = "import_with_from_top_package"
+    # importers that already hold an un-aliased import of a module whose name merely starts with a destination's
+    # name (c.bb vs c.b): the new `import c.b` must still be added
+    for j, dest in enumerate(others):
+        dd = L.modname_of_rel(dest)
+        for other in mods:
+            od = L.modname_of_rel(other)
+            if od != dd and od.startswith(dd) and other != source:
+                rel = "n%d.py" % j
+                files[rel] = "import %s\nimport %s\nshow(%s.f)\nshow(%s.g)\n" % (od, sd, sd, od)
+                clients[rel] = "import_with_prefix_sibling"
+                break
     return {"files": files, "source": source, "dests": others, "clients": clients}
 
 
@@ -193,7 +216,13 @@ def run(ctx):
         proj = gen_project(ctx.rng)
         dests = proj["dests"]
         if len(dests) > ctx.scale(2, 3):
-            dests = ctx.rng.sample(dests, ctx.scale(2, 3))
+            # keep a destination that has a longer-named sibling imported by some client
+            key = [d for d in dests if any(L.modname_of_rel(o) != L.modname_of_rel(d)
+                                           and L.modname_of_rel(o).startswith(L.modname_of_rel(d))
+                                           for o in proj["dests"])][:1]
+            key += [d for d in dests if d.count("/") >= 2 and d not in key][:1]      # a destination two packages deep
+            rest = [d for d in ctx.rng.sample(dests, ctx.scale(2, 3)) if d not in key]
+            dests = key + rest[:max(0, ctx.scale(2, 3) - len(key))]
         for dest in dests:
             raised, before, after, texts = run_one(proj["files"], proj["source"], dest)
             ctx.traces += 1
